@@ -15,7 +15,7 @@ ASSUMPTIONS = [
 ]
 
 HOOK_COMMITS = ["aa112f6", "48cb0fd"]
-FIX_COMMITS = ["536bdea", "2163003", "086d718", "eebbb00", "ae8746e", "813750d", "4dcfce1", "affca7a", "6634824", "7638f19", "8a1300b", "fe98d51", "caf36c4", "e4b64f7", "0c686df", "48a484d", "a33ca28", "1d2c9d7", "159b1e5", "a12e15f", "efcde62", "04ea757", "0a7b67b"]
+FIX_COMMITS = ["536bdea", "2163003", "086d718", "eebbb00", "ae8746e", "813750d", "4dcfce1", "affca7a", "6634824", "7638f19", "8a1300b", "fe98d51", "caf36c4", "e4b64f7", "0c686df", "48a484d", "a33ca28", "1d2c9d7", "159b1e5", "a12e15f", "efcde62", "04ea757", "0a7b67b", "2e663c7", "560e91b"]
 NOT_YET = {}
 
 CFG = {
@@ -83,6 +83,15 @@ CFG = {
         "level_note": "Trusted: Lean kernel, Mathlib, hand-written model validated by the correspondence run; nalgebra try_inverse, the Levenberg-Marquardt driver and the seeded RANSAC draws are external (convergence observed, not proved); rounding not analysed.",
         "files": ["src/func1/polynomial.rs", "src/func1/common_functions.rs", "src/func1/series1.rs", "src/geom2/circle2.rs", "src/stats.rs"],
         "tol": {"*": 1e-9, "fit.poly": 1e-4, "fit.line": 1e-6},
+    },
+    "C10": {
+        "cases": {"quick": 3200, "thorough": 160000},
+        "level_text": "Theorems about the logic core: OrientedCircles (push/last/take with the front flag) keeps all spanning rays in one sense, `last` is always the most recent push and the list is the push order seen from the working end; reverse_inscribed_circles is an involution that preserves those invariants; the bisection of inscribed_from_spanning_ray halves its bracket on every pass, keeps it inside the ray and stops within tol after a proved number of passes; advance_search_along_ray tries at most six fractions; the contact points of the generated envelope sections are one radius from the camber point. The geometric guarantees (inscribed circles, monotone stations, edge points, faces, recovery of the known medial axis, invariance, termination) are decided per case by the oracle on the implementation's results for a parametric family x every edge method x orientation modes.",
+        "level_note": "Partial: the searches that make up the analysis (spanning rays, closest points, curvature plateaus, circle fits, RANSAC) are numerical procedures whose success on every input is observed by the oracle, not proved; the model covers the container/bisection/stepping logic. Trusted: Lean kernel, Mathlib, hand-written model validated by the correspondence run; rounding not analysed.",
+        "files": ["src/airfoil.rs", "src/airfoil/camber.rs", "src/airfoil/helpers.rs", "src/airfoil/edges.rs", "src/airfoil/orientation.rs", "src/airfoil/inscribed_circle.rs"],
+        "tol": {"*": 1e-9, "airfoil.bisect": 1e-6},
+        "extra_tier": {"thorough": ["--thorough"]},
+        "trusted": ["external: parry closest-point / ray queries, the circle fits of C09"],
     },
     "C11": {
         "cases": {"quick": 1600, "thorough": 160000},
